@@ -56,7 +56,7 @@ def _solve(idx):
     logic = item[4] if len(item) > 4 else None
     t0 = time.time()
     T = _CFG["z3_timeout"]
-    short = min(5.0, T)
+    short = min(10.0, T)
     steps = ["z3:%gs" % short]
     r, s = _z3_once(hyps, goal, short if not (want_model or logic) else T, None, logic)
     if r == z3.unknown and want_model and not logic:
@@ -71,7 +71,7 @@ def _solve(idx):
         t1 = time.time()
         try:
             txt = s.to_smt2()
-            cr, err = _run_cvc5(txt, _CFG["cvc5_timeout"])
+            cr, err = _run_cvc5(txt, min(_CFG["cvc5_timeout"], 20) if not (want_model or logic) else _CFG["cvc5_timeout"])
         except Exception as e:          # pragma: no cover
             cr, err = "error", str(e)[:200]
         steps.append("cvc5")
